@@ -202,6 +202,8 @@ fn closure_op<const B: usize, const L: usize>(code: usize, s: Uint<B, L>, x: Uin
 define_ops! {
     // ---- part 2: comparison semantics
     cmp_all = |a: U, b: U| V::T(vec![(a == b).into_v(), (a != b).into_v(), (a < b).into_v(), (a <= b).into_v(), (a > b).into_v(), (a >= b).into_v(), a.cmp(&b).into_v(), a.partial_cmp(&b).map(|o| o as i8).into_v(), a.min(b).into_v(), a.max(b).into_v(), (h(&a) == h(&b)).into_v(), a.is_zero().into_v()]);
+    // the same comparisons with both operands being the SAME object
+    cmp_alias = |a: U| { let (x, y) = (&a, &a); V::T(vec![(x == y).into_v(), (x != y).into_v(), (x < y).into_v(), (x <= y).into_v(), (x > y).into_v(), (x >= y).into_v(), x.cmp(y).into_v(), x.partial_cmp(y).map(|o| o as i8).into_v(), (*x.min(y)).into_v(), (*x.max(y)).into_v(), (h(x) == h(y)).into_v(), x.is_zero().into_v()]) };
     routes = |a: U, b: U, e: U| { let r = a.wrapping_add(b); let r2 = b.wrapping_add(a); (r == e, r2 == e, h(&r) == h(&e), h(&r2) == h(&e), r.cmp(&e) as i8, e == Uint::from_limbs(*r.as_limbs())) };
     // ---- part 3: rejecting constructors
     from_limbs = |s: LS| { let mut a = [0u64; L]; a.copy_from_slice(&s); Uint::<B, L>::from_limbs(a) };
@@ -235,7 +237,7 @@ define_ops! {
 }
 
 dispatch_widths!(dispatch, call, Op;
-    0, 1, 2, 3, 4, 5, 6, 7, 8, 9, 10, 63, 64, 65, 67, 127, 128, 129, 192, 193, 250, 255, 256, 257);
+    0, 1, 2, 3, 4, 5, 6, 7, 8, 9, 10, 63, 64, 65, 67, 127, 128, 129, 192, 193, 250, 255, 256, 257, 1100, 1216, 2100);
 
 fn u(v: &BigUint, bits: usize) -> V {
     V::U(to_limbs(v, bits))
@@ -577,6 +579,7 @@ fn model(bits: usize, op: Op, args: &[V]) -> Expect {
             ]))
             .nt(true)
         }
+        cmp_alias => model(bits, cmp_all, &[args[0].clone(), args[0].clone()]),
         routes => is(V::T(vec![V::B(true), V::B(true), V::B(true), V::B(true), V::I(0), V::B(true)])).nt(true),
         from_limbs | bits_from_limbs => {
             let s = args[0].limbs();
@@ -674,13 +677,14 @@ fn c04(r: &Runner) {
         run_closure(r, bits, Some(if r.is_thorough() { 3 } else { 2 }));
     }
     // ---- part 2
-    let ws: Vec<usize> = if r.is_thorough() { WIDTHS.to_vec() } else { vec![0, 1, 2, 3, 4, 5, 6, 7, 8, 63, 64, 65, 127, 128, 129, 192, 256, 257] };
+    let ws: Vec<usize> = if r.is_thorough() { WIDTHS.to_vec() } else { vec![0, 1, 2, 3, 4, 5, 6, 7, 8, 63, 64, 65, 127, 128, 129, 192, 256, 257, 1100, 1216, 2100] };
     for &bits in &ws {
         let (uv, d) = if bits <= 10 { (small_all(bits), format!("S({bits})")) } else { pick(bits, if r.is_thorough() { 2500 } else { 700 }, &salt(r.seed)) };
         let mp = pow2(bits);
         r.universe(&format!("({d})^2 comparisons, hashing, routes"), bits, uv.len(), |i, l| {
             let a = vu(&uv[i]);
             let ba = big(&uv[i]);
+            exec(l, bits, Op::cmp_alias, &[a.clone()]);
             for b in &uv {
                 l.states(1);
                 exec(l, bits, Op::cmp_all, &[a.clone(), vu(b)]);
@@ -688,6 +692,26 @@ fn c04(r: &Runner) {
                 exec(l, bits, Op::routes, &[a.clone(), vu(b), u(&e, bits)]);
             }
         });
+        // two operands that differ at exactly two limb positions (i, j), in opposite directions: every (i, j)
+        if bits >= 128 {
+            let nl = nlimbs(bits);
+            let g = golden(nl);
+            let bases: Vec<Limbs> = vec![vec![1u64; nl], (0..nl).map(|k| if k == nl - 1 { (g[k] & (mask(bits) >> 1)) | 1 } else { g[k] | 1 }).collect()];
+            r.universe(&format!("comparisons of operands differing at two limb positions: all {nl}^2 position pairs x 2 bases"), bits, nl * nl, |ij, l| {
+                let (i, j) = (ij / nl, ij % nl);
+                for base in &bases {
+                    let mut b = base.clone();
+                    b[i] += 1;
+                    b[j] -= 1;
+                    if b[nl - 1] & !mask(bits) != 0 || base[nl - 1] & !mask(bits) != 0 {
+                        continue;
+                    }
+                    l.states(1);
+                    exec(l, bits, Op::cmp_all, &[vu(base), vu(&b)]);
+                    exec(l, bits, Op::cmp_all, &[vu(&b), vu(base)]);
+                }
+            });
+        }
         // ---- part 3: constructors
         let nl = nlimbs(bits);
         let mut slices: Vec<Limbs> = vec![];
